@@ -127,7 +127,14 @@ class CallMixin:
             env = self._class_env.get(id(fi.cls), {}) if fi.cls is not None else {}
             return self.call_repo(fi, env, None, pos, kw, st, fr, site)
         if op == "Closure":
-            return self.call_repo(fn.attr, fn.extra["env"], None, pos, kw, st, fr, site,
+            env = fn.extra["env"]
+            if fr is not None and fr.func is not None and getattr(fn.attr, "parent", None) is fr.func and \
+                    not any(f is fn.attr for (_s, f) in fr.chain):
+                # called from the function that defined it: free variables are cells shared with that function, so
+                # the closure sees their current values (also of names bound after the def)
+                env = dict(env)
+                env.update({k: v for k, v in st.locals.items() if v is not None and v.op != "Undefined"})
+            return self.call_repo(fn.attr, env, None, pos, kw, st, fr, site,
                                   closure_self=fn.extra.get("self_node"))
         if op == "BoundMethod":
             inst, f = fn.args
@@ -246,6 +253,7 @@ class CallMixin:
         if selfn is None:
             selfn = closure_self
         nfr = Frame(fi, fi.module, captured, fr.chain + ((site, fi),), len(st.pc), selfn, fi.cls)
+        n_entry = len(self.g.nodes)
         cst = St(locals_, st.heap, st.cur, st.pc)
         saved_fn = self._cur_fn
         self._cur_fn = fi
@@ -264,6 +272,8 @@ class CallMixin:
                 self.kept_locals.setdefault(fi.qualname, []).append((mst.locals, mst))
             if fi.qualname in self.watch_calls:
                 self.call_log.append((fi, site, locals_, v, st.pc))
+            # every inlined call: (function, call chain, first node id, one past the last node id, value)
+            self.call_records.append((fi, nfr.chain, n_entry, len(self.g.nodes), v))
             st.heap, st.cur, st.pc = mst.heap, mst.cur, mst.pc
             if memo_key is not None:
                 for r_ in [v] + list(self.roots(v)):
@@ -668,8 +678,18 @@ class CallMixin:
     # ------------------------------------------------------------ externals
     def call_ext(self, fn: Node, pos, kw, st, fr, site) -> Node:
         q = fn.attr
-        P = [self.res(p, st) for p in pos]
         short = X.np_short(q)
+        if short is not None and "out" in kw and "where" not in kw and \
+                (short in X.NP_BINOPS or short in X.NP_UNOPS or short in X.NP_CMPS or short in X.UFUNC1 or
+                 short in X.UFUNC2) and self.res(kw["out"], st).op not in ("Const", "Tuple"):
+            # ufunc(x, ..., out=o): o is overwritten with the value of the plain call (same canonical form)
+            tgt = kw["out"]
+            val = self.call_ext(fn, pos, {k: v for k, v in kw.items() if k != "out"}, st, fr, site)
+            self.effect("write", site, st, fr, node=tgt, roots=self.roots(tgt), idx=None, value=val, how="out=")
+            st.cur[tgt.id] = val
+            self._propagate_view_write(tgt, val, st, site)
+            return tgt
+        P = [self.res(p, st) for p in pos]
         nkw = {k: v for k, v in kw.items() if k not in ("dtype",)}
         dt = kw.get("dtype")
         extra = {"dtype": self.res(dt, st)} if dt is not None else None
